@@ -179,7 +179,18 @@ func sameType(x, y types.Type) bool {
 
 func (x iface) eq(t types.Type, _y interface{}) bool {
 	y := _y.(iface)
-	return sameType(x.t, y.t) && (x.t == nil || equals(x.t, x.v, y.v))
+	if !sameType(x.t, y.t) {
+		return false
+	}
+	if x.t == nil {
+		return true
+	}
+	// Go decides comparability by the dynamic type, before looking at any value: two interface values of
+	// one uncomparable dynamic type panic even if an early field already differs
+	if !types.Comparable(x.t) {
+		panic(targetRuntimeError(fmt.Sprintf("comparing uncomparable type %s", x.t)))
+	}
+	return equals(x.t, x.v, y.v)
 }
 
 func (x iface) hash(outer types.Type) int {
